@@ -168,7 +168,7 @@ def check_C01(c):
     for i in range(_q(c, 600, 20000)):
         big = i % 10 == 0
         cfg = gen.TreeCfg(wellformed=False, max_nodes=40 if big else 9, max_depth=30 if big else 5,
-                          max_width=8 if big else 4, p_colonless=0.01, p_empty_node=0.05)
+                          max_width=8 if big else 4, p_colonless=0.01, p_empty_node=0.05, p_pynum=0.3)
         node, meta = gen.random_tree(c.rng, cfg)
         jn = gen.node_to_json(node)
         for ind, cp in c.rng.sample([(i_, c_) for i_ in INDENTS for c_ in (False, True)], _q(c, 3, 6)):
